@@ -382,7 +382,7 @@ fn body(ctx: &Ctx) -> (Summary, Meta) {
     }
     let njobs = jobs.len();
     let jobs_idx: Vec<(usize, &Job)> = jobs.iter().enumerate().collect();
-    let sum = run_jobs(ctx, "periodic", &jobs_idx, |j| if j.0 >= n_dyadic { format!("f64:decimal:{}", j.1.ax.name) } else { j.1.key() }, |&(idx, j)| {
+    let mut sum = run_jobs(ctx, "periodic", &jobs_idx, |j| if j.0 >= n_dyadic { format!("f64:decimal:{}", j.1.ax.name) } else { j.1.key() }, |&(idx, j)| {
         let mut out = JobOut::default();
         if idx >= n_dyadic {
             run_decimal(j, &mut out);
@@ -393,8 +393,14 @@ fn body(ctx: &Ctx) -> (Summary, Meta) {
         }
         out
     });
+    sum.merge(run_jobs(ctx, "builder-option-histories", &[()], |_| "builder-option-histories".to_string(), |_| {
+        let mut out = JobOut::default();
+        nimc::subj::check_spline_option_histories(4, &|b, e| b == 3 && e, &mut out);
+        out.sample = Some(Json::str("[Boundary(3), Extrapolate(true), Boundary(1)] vs [Extrapolate(true), Boundary(1)]"));
+        out
+    }));
     let meta = Meta {
-        rule: "every axis word (n>=3, 5 offsets incl. axes that exclude the origin) with periodic-closed lanes, Periodic boundary + extrapolate(true); queries x + kP for every in-range grid query x and every k of the list (|k| up to 2^55 + 1: the float actually passed is wrapped exactly), each job also with axis and queries in units of 2^-60 and 2^40, plus the 1 and 2 ulp neighbours of every image of the range start; oracle = certified exact periodic spline evaluated at the *exactly* wrapped float query; 3 call forms. Plus 7 axes with non-dyadic knots: images of range ends / knots / interior points and their 1-2 ulp neighbours for every k, compared with the implementation's in-range value at the exactly wrapped argument (Lipschitz allowance), and never rejected. Non-trivial = k != 0.".into(),
+        rule: "every axis word (n>=3, 5 offsets incl. axes that exclude the origin) with periodic-closed lanes, Periodic boundary + extrapolate(true); queries x + kP for every in-range grid query x and every k of the list (|k| up to 2^55 + 1: the float actually passed is wrapped exactly), each job also with axis and queries in units of 2^-60 and 2^40, plus the 1 and 2 ulp neighbours of every image of the range start; oracle = certified exact periodic spline evaluated at the *exactly* wrapped float query; 3 call forms. Plus 7 axes with non-dyadic knots: images of range ends / knots / interior points and their 1-2 ulp neighbours for every k, compared with the implementation's in-range value at the exactly wrapped argument (Lipschitz allowance), and never rejected. Non-trivial = k != 0. Phase builder-option-histories: every sequence of up to 4 CubicSpline option calls that denotes (Periodic, extrapolate) answers in- and out-of-range queries bit-identically to .extrapolate(true).boundary(Periodic).".into(),
         bounds: format!("{njobs} (type, axis) jobs, {} values of k in [-10^6, 10^6]: {:?}; tier {}", kv.len(), if quick { kv.clone() } else { vec![] }, ctx.tier.name()),
         assumptions: vec!["tolerance K eps scale + Lipschitz * (|fl(q - x0) - (q - x0)| + 4 eps (|x0| + P)): the rounding of the wrapped argument allowed by the statement is taken to be the rounding of the difference q - x0 (known exactly per query, zero when representable) plus two roundings at the magnitude of the range; non-dyadic axes: 4 eps (|q| + |x0| + P)".into()],
         extra: vec![],
